@@ -231,11 +231,14 @@ pub fn ics20_contract() -> Box<dyn Contract<Empty>> {
 // ------------------------------------------------------------------ cw20-base whose Transfer can be made to fail
 
 const FLAKY: Item<bool> = Item::new("verif_flaky");
+const FLAKY_QUERY: Item<bool> = Item::new("verif_flaky_query");
 
 #[derive(Serialize, Deserialize, Clone, Debug)]
 #[serde(rename_all = "snake_case")]
 pub enum FlakyCtl {
     Set { on: bool },
+    /// Balance queries fail while on (a token contract that cannot be reached)
+    SetQuery { on: bool },
 }
 
 fn flaky_execute(deps: DepsMut, env: Env, info: MessageInfo, msg: cw20::Cw20ExecuteMsg) -> Result<Response, cw20_base::ContractError> {
@@ -248,11 +251,15 @@ fn flaky_execute(deps: DepsMut, env: Env, info: MessageInfo, msg: cw20::Cw20Exec
 fn flaky_sudo(deps: DepsMut, _env: Env, msg: FlakyCtl) -> StdResult<Response> {
     match msg {
         FlakyCtl::Set { on } => FLAKY.save(deps.storage, &on)?,
+        FlakyCtl::SetQuery { on } => FLAKY_QUERY.save(deps.storage, &on)?,
     }
     Ok(Response::new())
 }
 
 fn flaky_query(deps: Deps, env: Env, msg: cw20_base::msg::QueryMsg) -> StdResult<Binary> {
+    if matches!(msg, cw20_base::msg::QueryMsg::Balance { .. }) && FLAKY_QUERY.may_load(deps.storage)?.unwrap_or(false) {
+        return Err(StdError::generic_err("flaky cw20: balance queries are switched off (injected fault)"));
+    }
     cw20_base::contract::query(deps, env, msg)
 }
 
